@@ -163,6 +163,22 @@ let lane_cresp args =
   | ["passmod"; v] -> (match parse_passmod_resp (bytes_of_hex v) with Ok x -> "ok " ^ hex_of_bytes x | Panic -> "panic")
   | _ -> "BAD-ARGS"
 
+(* ---- message id allocator (C05) ---- *)
+let lane_msgid args =
+  match args with
+  | [last; ids; n] ->
+      let inuse = ref (if ids = "~" then [] else List.map z_of_decimal (String.split_on_char ',' ids)) in
+      let last = ref (z_of_decimal last) in
+      let out = ref [] in
+      (try for _ = 1 to int_of_string n do
+         match next_msgid !last !inuse with
+         | Found m -> out := decimal_of_z m :: !out; last := m; inuse := m :: !inuse
+         | NoFree -> out := "nofree" :: !out; raise Exit
+         | OutOfFuel -> out := "FUEL" :: !out; raise Exit
+       done with Exit -> ());
+      String.concat "," (List.rev !out)
+  | _ -> "BAD-ARGS"
+
 let dispatch lane args =
   match lane with
   | "parse" -> lane_parse args
@@ -178,6 +194,8 @@ let dispatch lane args =
   | "helpers" -> lane_helpers args
   | "url" -> lane_url args
   | "req" -> lane_req args
+  | "conn" -> Connrun.run_script args
+  | "msgid" -> lane_msgid args
   | "ctl" -> lane_ctl args
   | "exop" -> lane_exop args
   | "cresp" -> lane_cresp args
